@@ -47,6 +47,10 @@ def main(argv):
             doc = json.load(f)
         prop = doc["property"]
         stage()
+        if doc.get("scenario") == "scale":
+            from .checks import wide
+
+            return wide.replay(doc)
         mod = importlib.import_module(CHECKS[prop])
         rc = mod.replay(doc)
         return rc
@@ -67,6 +71,9 @@ def main(argv):
     mod = importlib.import_module(CHECKS[prop])
     ctx = common.Ctx(prop, tier)
     try:
+        from .checks import wide
+
+        wide.run(ctx)  # magnitude sweeps with the property's oracles
         rc = mod.run(ctx)
     except SystemExit:
         raise
